@@ -382,7 +382,11 @@ def model_summary(m, case):
                 return None
             return dict(kind='err', cls=o['err'], pulls=o['pulls'], apps=o['apps'])
     if not m['enough']:
-        return None
+        if m.get('fin') is None or case['terminal']:
+            return None
+        # the pipeline ends by itself with fewer than k results: all of them, at the cost of reaching its end
+        vals = [c13.dec_model(o['v']) for o in outs]
+        return dict(kind='ok', value=vals, pulls=m['fin'][0], apps=m['fin'][1])
     if case['k'] == 0 and not case['terminal']:
         return dict(kind='ok', value=[], pulls=0, apps=0)
     last = outs[-1]
